@@ -15,7 +15,7 @@ class C18(Prop):
                   'distinct = distinct case hash')
 
     def streams(self, rng, tier):
-        n = 800 if tier == 'quick' else scale(200000)
+        n = 2400 if tier == 'quick' else scale(200000)
         corpus = [
             {'op': 'ind.to_list', 'ind': {'tab': False, 'n': 4, 'mode': 'none', 'glyph': '-'}, 'content': {'l': [{'s': 'a'}, {'s': ' '}, {'s': '\tb'}]}},
             {'op': 'ind.to_list', 'ind': {'tab': False, 'n': 2, 'mode': 'all', 'glyph': ''}, 'content': {'l': [{'s': 'a  '}, {'s': ''}, {'s': ' b'}]}},
